@@ -1,4 +1,4 @@
-From FC Require Import Sync.Model.
+From FC Require Import Sync.Model Sync.Import.
 Require Extraction.
 Require Import ExtrOcamlBasic.
 Extraction "sync_model.ml" main_T.
